@@ -83,6 +83,11 @@ def main():
     except core.Inconclusive as e:
         print("INCONCLUSIVE property=%s: %s" % (prop, e))
         return 2
+    except Exception:  # a fault of the machinery itself is never a verdict
+        import traceback
+        traceback.print_exc()
+        print("INCONCLUSIVE property=%s: internal error of the checking machinery (see stderr)" % prop)
+        return 2
 
 
 if __name__ == "__main__":
